@@ -262,8 +262,20 @@ def check(run):
             if not compare(run, g, obs, tab, key, text):
                 continue
             warns = [r for r in logs['graphslam.graph'] if r.levelno >= logging.WARNING]
+
+            def _msg(r):
+                try:
+                    return r.getMessage()
+                except Exception as ex:  # noqa
+                    return '<record cannot be formatted: %r>' % (ex,)
             if len(warns) != obs['warnings']:
-                run.violation(dict(key, outcome='warnings'), '%d warnings for %d unrecognised non-blank lines: %r' % (len(warns), obs['warnings'], [r.getMessage() for r in warns][:5]), dict(file=text))
+                run.violation(dict(key, outcome='warnings'), '%d warnings for %d unrecognised non-blank lines: %r' % (len(warns), obs['warnings'], [_msg(r) for r in warns][:5]), dict(file=text))
+                continue
+            bad = [_msg(r) for r in warns if _msg(r).startswith('<record cannot be formatted')]
+            if bad:
+                # a warning is a message for a person: a record that raises when it is formatted (the skipped line's text used as a format string)
+                # is not one, and handlers that do not swallow errors abort the import
+                run.violation(dict(key, outcome='warning-unformattable'), 'a warning about an unrecognised line cannot be formatted: %s' % bad[0], dict(file=text))
                 continue
             # all loader entry points behave identically (they accept no custom edge types: compared on files without custom lines)
             if not has_custom:
